@@ -396,7 +396,7 @@ PROPS["C20"] = dict(
     floors={"quick": {"closed_file_probes": 200, "reads_past_the_end": 50, "zero_byte_writes": 20,
                       "writes_larger_than_a_stdio_buffer": 20, "seeks_from_start": 50, "seeks_from_current": 50,
                       "seeks_from_end": 50, "reopens_while_open": 50, "dels_of_open_files": 20, "with_blocks": 1,
-                      "text_roundtrips": 1, "record_wise_reads": 6, "stack_file_lifecycles": 3, "with_blocks_on_files_that_are_not_open": 4, "append_opens": 50, "formatted_writes": 50, "formatted_writes_with_an_empty_text_field": 200}},
+                      "text_roundtrips": 1, "record_wise_reads": 6, "stack_file_lifecycles": 3, "with_blocks_on_files_that_are_not_open": 4, "append_opens": 50, "formatted_writes": 50, "formatted_writes_with_an_empty_text_field": 200, "writes_refused_by_the_mode": 50, "reads_refused_by_the_mode": 50, "operations_checked_with_the_error_indicator_set": 100}},
     rule="case = one File object driven through 20-80 (thorough: up to 140) random stream operations; distinct = hash "
          "of the operation list; non-trivial = at least 20 operations",
     assumptions=["one File object per case, one file on disk per shard", "offsets stay within the file"],
@@ -419,7 +419,7 @@ PROPS["C19"] = dict(
     quick=[("asan", 16, 30), ("plain", 8, 30)],
     thorough=[("asan", 16, 1500), ("plain", 16, 4000), ("memcheck", 8, 3, {"budget": 900})],
     floors={"quick": {"containers_obtained_from_empty_sources": 200, "iterator_result_walks": 1000, "sized_map_checks": 2000, "sized_sequence_checks": 1000, "sized_maps_value_larger_than_key": 100, "sized_maps_key_larger_than_value": 100, "objects_observed": 5000, "refusals_checked": 2000, "neighbour_checks": 100,
-                      "heap_objects_released_once": 50, "empty_registry_thread_runs": 20}},
+                      "heap_objects_released_once": 50, "empty_registry_thread_runs": 20, "stack_objects_of_sized_types_written_in_full": 1000}},
     rule="evaluation = one observation or one refused operation; the enumeration is run completely at sizes "
          "1,2,3,7,64 by shard 0 and at random sizes by the generated cases; distinct = container size; non-trivial = "
          "every case",
